@@ -706,12 +706,12 @@ def «lfht._cds_lfht_gc_bucket.params» : List String := ["bucket", "node"]
 
 /-- `cds_lfht_next_duplicate` (src/rculfhash.c) -/
 def «lfht.cds_lfht_next_duplicate» : Stmt :=
-  block [(.prim none (.ext "cds_lfht_iter_debug_assert") [.bin .eq (.var "ht") (.pload (.fieldAddr (.var "iter") "lfht"))]), (.assign "node" (.pload (.fieldAddr (.var "iter") "node"))), (.assign "reverse_hash" (.pload (.fieldAddr (.var "node") "reverse_hash"))), (.assign "next" (.pload (.fieldAddr (.var "iter") "next"))), (.call (some "_t1") ["node"] [.var "next"] «lfht.clear_flag»), (.assign "node" (.var "_t1")), (.loop (block [(.call (some "_t2") ["node"] [.var "node"] «lfht.is_end»), (.ifte (.var "_t2") (block [(.assign "next" (.null)), (.assign "node" (.var "next")), (.brk)]) (.skip)), (.ifte (.bin .gt (.pload (.fieldAddr (.var "node") "reverse_hash")) (.var "reverse_hash")) (block [(.assign "next" (.null)), (.assign "node" (.var "next")), (.brk)]) (.skip)), (.prim (some "_t3") .uload [.fieldAddr (.var "node") "next", .cst "CMM_CONSUME" (1)]), (.assign "next" (.var "_t3")), (.call (some "_t4") ["node"] [.var "next"] «lfht.is_removed»), (.ifte (.un .lnot (.var "_t4")) (block [(.call (some "_t5") ["node"] [.var "next"] «lfht.is_bucket»), (.assign "_t6" (.un .lnot (.un .lnot (.un .lnot (.var "_t5")))))]) (.assign "_t6" (.lit 0))), (.ifte (.var "_t6") (block [(.prim (some "_t7") (.ext "match") [.var "node", .var "key"]), (.assign "_t8" (.un .lnot (.un .lnot (.var "_t7"))))]) (.assign "_t8" (.lit 0))), (.ifte (.var "_t8") (.brk) (.skip)), (.call (some "_t9") ["node"] [.var "next"] «lfht.clear_flag»), (.assign "node" (.var "_t9"))])), (.ifte (.un .lnot (.var "node")) (.assign "_t12" (.lit 1)) (block [(.prim (some "_t10") .uload [.fieldAddr (.var "node") "next", .cst "CMM_RELAXED" (0)]), (.call (some "_t11") ["node"] [.var "_t10"] «lfht.is_bucket»), (.assign "_t12" (.un .lnot (.un .lnot (.un .lnot (.var "_t11")))))])), (.ifte (.var "_t12") (.skip) (.prim none (.ext "abort") [])), (.assign "_t13" (.var "node")), (.pstore (.fieldAddr (.var "iter") "node") (.var "_t13")), (.assign "_t14" (.var "next")), (.pstore (.fieldAddr (.var "iter") "next") (.var "_t14"))]
+  block [(.assign "node" (.pload (.fieldAddr (.var "iter") "node"))), (.assign "reverse_hash" (.pload (.fieldAddr (.var "node") "reverse_hash"))), (.assign "next" (.pload (.fieldAddr (.var "iter") "next"))), (.call (some "_t1") ["node"] [.var "next"] «lfht.clear_flag»), (.assign "node" (.var "_t1")), (.loop (block [(.call (some "_t2") ["node"] [.var "node"] «lfht.is_end»), (.ifte (.var "_t2") (block [(.assign "next" (.null)), (.assign "node" (.var "next")), (.brk)]) (.skip)), (.ifte (.bin .gt (.pload (.fieldAddr (.var "node") "reverse_hash")) (.var "reverse_hash")) (block [(.assign "next" (.null)), (.assign "node" (.var "next")), (.brk)]) (.skip)), (.prim (some "_t3") .uload [.fieldAddr (.var "node") "next", .cst "CMM_CONSUME" (1)]), (.assign "next" (.var "_t3")), (.call (some "_t4") ["node"] [.var "next"] «lfht.is_removed»), (.ifte (.un .lnot (.var "_t4")) (block [(.call (some "_t5") ["node"] [.var "next"] «lfht.is_bucket»), (.assign "_t6" (.un .lnot (.un .lnot (.un .lnot (.var "_t5")))))]) (.assign "_t6" (.lit 0))), (.ifte (.var "_t6") (block [(.prim (some "_t7") (.ext "match") [.var "node", .var "key"]), (.assign "_t8" (.un .lnot (.un .lnot (.var "_t7"))))]) (.assign "_t8" (.lit 0))), (.ifte (.var "_t8") (.brk) (.skip)), (.call (some "_t9") ["node"] [.var "next"] «lfht.clear_flag»), (.assign "node" (.var "_t9"))])), (.ifte (.un .lnot (.var "node")) (.assign "_t12" (.lit 1)) (block [(.prim (some "_t10") .uload [.fieldAddr (.var "node") "next", .cst "CMM_RELAXED" (0)]), (.call (some "_t11") ["node"] [.var "_t10"] «lfht.is_bucket»), (.assign "_t12" (.un .lnot (.un .lnot (.un .lnot (.var "_t11")))))])), (.ifte (.var "_t12") (.skip) (.prim none (.ext "abort") [])), (.assign "_t13" (.var "node")), (.pstore (.fieldAddr (.var "iter") "node") (.var "_t13")), (.assign "_t14" (.var "next")), (.pstore (.fieldAddr (.var "iter") "next") (.var "_t14"))]
 def «lfht.cds_lfht_next_duplicate.params» : List String := ["ht", "match", "key", "iter"]
 
 /-- `_cds_lfht_add` (src/rculfhash.c) -/
 def «lfht._cds_lfht_add» : Stmt :=
-  block [(.assign "_goto_end" (.lit 0)), (.assign "_goto_gc_node" (.lit 0)), (.assign "_goto_insert" (.lit 0)), (.call (some "_t1") ["node"] [.var "node"] «lfht.is_bucket»), (.ifte (.un .lnot (.var "_t1")) (.skip) (.prim none (.ext "abort") [])), (.call (some "_t2") ["node"] [.var "node"] «lfht.is_removed»), (.ifte (.un .lnot (.var "_t2")) (.skip) (.prim none (.ext "abort") [])), (.call (some "_t3") ["node"] [.var "node"] «lfht.is_removal_owner»), (.ifte (.un .lnot (.var "_t3")) (.skip) (.prim none (.ext "abort") [])), (.call (some "_t4") ["ht", "size", "hash"] [.var "ht", .var "size", .var "hash"] «lfht.lookup_bucket»), (.assign "bucket" (.var "_t4")), (.loop (block [(.assign "chain_len" (.lit 0)), (.assign "iter_prev" (.var "bucket")), (.prim (some "_t5") .uload [.fieldAddr (.var "iter_prev") "next", .cst "CMM_CONSUME" (1)]), (.assign "iter" (.var "_t5")), (.loop (block [(.call (some "_t6") ["node"] [.var "iter"] «lfht.is_end»), (.ifte (.var "_t6") (block [(.assign "_goto_insert" (.lit 1)), (.brk)]) (.skip)), (.ifte (.var "_goto_insert") (.brk) (block [(.call (some "_t7") ["node"] [.var "iter"] «lfht.clear_flag»), (.ifte (.bin .gt (.pload (.fieldAddr (.var "_t7") "reverse_hash")) (.pload (.fieldAddr (.var "node") "reverse_hash"))) (block [(.assign "_goto_insert" (.lit 1)), (.brk)]) (.skip)), (.ifte (.var "_goto_insert") (.brk) (block [(.ifte (.var "bucket_flag") (block [(.call (some "_t8") ["node"] [.var "iter"] «lfht.clear_flag»), (.assign "_t9" (.un .lnot (.un .lnot (.bin .eq (.pload (.fieldAddr (.var "_t8") "reverse_hash")) (.pload (.fieldAddr (.var "node") "reverse_hash"))))))]) (.assign "_t9" (.lit 0))), (.ifte (.var "_t9") (block [(.assign "_goto_insert" (.lit 1)), (.brk)]) (.skip)), (.ifte (.var "_goto_insert") (.brk) (block [(.call (some "_t10") ["node"] [.var "iter"] «lfht.clear_flag»), (.prim (some "_t11") .uload [.fieldAddr (.var "_t10") "next", .cst "CMM_CONSUME" (1)]), (.assign "next" (.var "_t11")), (.call (some "_t12") ["node"] [.var "next"] «lfht.is_removed»), (.ifte (.var "_t12") (block [(.assign "_goto_gc_node" (.lit 1)), (.brk)]) (.skip)), (.ifte (.var "_goto_gc_node") (.brk) (block [(.ifte (.var "unique_ret") (block [(.call (some "_t13") ["node"] [.var "next"] «lfht.is_bucket»), (.assign "_t14" (.un .lnot (.un .lnot (.un .lnot (.var "_t13")))))]) (.assign "_t14" (.lit 0))), (.ifte (.var "_t14") (block [(.call (some "_t15") ["node"] [.var "iter"] «lfht.clear_flag»), (.assign "_t16" (.un .lnot (.un .lnot (.bin .eq (.pload (.fieldAddr (.var "_t15") "reverse_hash")) (.pload (.fieldAddr (.var "node") "reverse_hash"))))))]) (.assign "_t16" (.lit 0))), (.ifte (.var "_t16") (block [(.pstore (.fieldAddr (.addrGlob "&d_iter") "node") (.var "node")), (.pstore (.fieldAddr (.addrGlob "&d_iter") "next") (.var "iter")), (.call none ["ht", "match", "key", "iter"] [.var "ht", .var "match", .var "key", .addrGlob "&d_iter"] «lfht.cds_lfht_next_duplicate»), (.ifte (.un .lnot (.pload (.fieldAddr (.addrGlob "&d_iter") "node"))) (block [(.assign "_goto_insert" (.lit 1)), (.brk)]) (.skip)), (.ifte (.var "_goto_insert") (.brk) (block [(.assign "_t17" (.pload (.addrGlob "&d_iter"))), (.pstore (.var "unique_ret") (.var "_t17")), (.ret none)]))]) (.skip)), (.ifte (.var "_goto_insert") (.brk) (block [(.call (some "_t18") ["node"] [.var "iter"] «lfht.clear_flag»), (.ifte (.bin .ne (.pload (.fieldAddr (.var "iter_prev") "reverse_hash")) (.pload (.fieldAddr (.var "_t18") "reverse_hash"))) (block [(.call (some "_t19") ["node"] [.var "next"] «lfht.is_bucket»), (.assign "_t20" (.un .lnot (.un .lnot (.un .lnot (.var "_t19")))))]) (.assign "_t20" (.lit 0))), (.ifte (.var "_t20") (block [(.assign "chain_len" (.bin .add (.var "chain_len") (.lit 1))), (.prim none (.ext "check_resize") [.var "ht", .var "size", .var "chain_len"])]) (.skip)), (.call (some "_t21") ["node"] [.var "iter"] «lfht.clear_flag»), (.assign "iter_prev" (.var "_t21")), (.assign "iter" (.var "next"))]))]))]))]))]))])), (.assign "_goto_insert" (.lit 0)), (.ifte (.var "_goto_gc_node") (.skip) (block [(.call (some "_t22") ["node"] [.var "iter"] «lfht.clear_flag»), (.ifte (.bin .ne (.var "node") (.var "_t22")) (.skip) (.prim none (.ext "abort") [])), (.call (some "_t23") ["node"] [.var "iter_prev"] «lfht.is_removed»), (.ifte (.un .lnot (.var "_t23")) (.skip) (.prim none (.ext "abort") [])), (.call (some "_t24") ["node"] [.var "iter_prev"] «lfht.is_removal_owner»), (.ifte (.un .lnot (.var "_t24")) (.skip) (.prim none (.ext "abort") [])), (.call (some "_t25") ["node"] [.var "iter"] «lfht.is_removed»), (.ifte (.un .lnot (.var "_t25")) (.skip) (.prim none (.ext "abort") [])), (.call (some "_t26") ["node"] [.var "iter"] «lfht.is_removal_owner»), (.ifte (.un .lnot (.var "_t26")) (.skip) (.prim none (.ext "abort") [])), (.ifte (.un .lnot (.var "bucket_flag")) (block [(.call (some "_t27") ["node"] [.var "iter"] «lfht.clear_flag»), (.assign "_t28" (.var "_t27")), (.pstore (.fieldAddr (.var "node") "next") (.var "_t28"))]) (block [(.call (some "_t29") ["node"] [.var "iter"] «lfht.clear_flag»), (.call (some "_t30") ["node"] [.var "_t29"] «lfht.flag_bucket»), (.assign "_t31" (.var "_t30")), (.pstore (.fieldAddr (.var "node") "next") (.var "_t31"))])), (.call (some "_t32") ["node"] [.var "iter"] «lfht.is_bucket»), (.ifte (.var "_t32") (block [(.call (some "_t33") ["node"] [.var "node"] «lfht.flag_bucket»), (.assign "new_node" (.var "_t33"))]) (.assign "new_node" (.var "node"))), (.prim (some "_t34") .ucmpxchg [.fieldAddr (.var "iter_prev") "next", .var "iter", .var "new_node", .cst "CMM_SEQ_CST_FENCE" (6), .cst "CMM_RELAXED" (0)]), (.ifte (.bin .ne (.var "_t34") (.var "iter")) (.cont) (block [(.assign "return_node" (.var "node")), (.assign "_goto_end" (.lit 1)), (.brk)]))])), (.assign "_goto_gc_node" (.lit 0)), (.ifte (.var "_goto_end") (.brk) (block [(.call (some "_t35") ["node"] [.var "iter"] «lfht.is_removed»), (.ifte (.un .lnot (.var "_t35")) (.skip) (.prim none (.ext "abort") [])), (.call (some "_t36") ["node"] [.var "iter"] «lfht.is_removal_owner»), (.ifte (.un .lnot (.var "_t36")) (.skip) (.prim none (.ext "abort") [])), (.call (some "_t37") ["node"] [.var "iter"] «lfht.is_bucket»), (.ifte (.var "_t37") (block [(.call (some "_t38") ["node"] [.var "next"] «lfht.clear_flag»), (.call (some "_t39") ["node"] [.var "_t38"] «lfht.flag_bucket»), (.assign "new_next" (.var "_t39"))]) (block [(.call (some "_t40") ["node"] [.var "next"] «lfht.clear_flag»), (.assign "new_next" (.var "_t40"))])), (.prim none .ucmpxchg [.fieldAddr (.var "iter_prev") "next", .var "iter", .var "new_next", .cst "CMM_SEQ_CST_FENCE" (6), .cst "CMM_RELAXED" (0)])]))])), (.assign "_goto_end" (.lit 0)), (.ifte (.var "unique_ret") (block [(.assign "_t41" (.var "return_node")), (.pstore (.fieldAddr (.var "unique_ret") "node") (.var "_t41"))]) (.skip))]
+  block [(.assign "_goto_end" (.lit 0)), (.assign "_goto_gc_node" (.lit 0)), (.assign "_goto_insert" (.lit 0)), (.call (some "_t1") ["node"] [.var "node"] «lfht.is_bucket»), (.ifte (.un .lnot (.var "_t1")) (.skip) (.prim none (.ext "abort") [])), (.call (some "_t2") ["node"] [.var "node"] «lfht.is_removed»), (.ifte (.un .lnot (.var "_t2")) (.skip) (.prim none (.ext "abort") [])), (.call (some "_t3") ["node"] [.var "node"] «lfht.is_removal_owner»), (.ifte (.un .lnot (.var "_t3")) (.skip) (.prim none (.ext "abort") [])), (.call (some "_t4") ["ht", "size", "hash"] [.var "ht", .var "size", .var "hash"] «lfht.lookup_bucket»), (.assign "bucket" (.var "_t4")), (.loop (block [(.assign "chain_len" (.lit 0)), (.assign "iter_prev" (.var "bucket")), (.prim (some "_t5") .uload [.fieldAddr (.var "iter_prev") "next", .cst "CMM_CONSUME" (1)]), (.assign "iter" (.var "_t5")), (.loop (block [(.call (some "_t6") ["node"] [.var "iter"] «lfht.is_end»), (.ifte (.var "_t6") (block [(.assign "_goto_insert" (.lit 1)), (.brk)]) (.skip)), (.ifte (.var "_goto_insert") (.brk) (block [(.call (some "_t7") ["node"] [.var "iter"] «lfht.clear_flag»), (.ifte (.bin .gt (.pload (.fieldAddr (.var "_t7") "reverse_hash")) (.pload (.fieldAddr (.var "node") "reverse_hash"))) (block [(.assign "_goto_insert" (.lit 1)), (.brk)]) (.skip)), (.ifte (.var "_goto_insert") (.brk) (block [(.ifte (.var "bucket_flag") (block [(.call (some "_t8") ["node"] [.var "iter"] «lfht.clear_flag»), (.assign "_t9" (.un .lnot (.un .lnot (.bin .eq (.pload (.fieldAddr (.var "_t8") "reverse_hash")) (.pload (.fieldAddr (.var "node") "reverse_hash"))))))]) (.assign "_t9" (.lit 0))), (.ifte (.var "_t9") (block [(.assign "_goto_insert" (.lit 1)), (.brk)]) (.skip)), (.ifte (.var "_goto_insert") (.brk) (block [(.call (some "_t10") ["node"] [.var "iter"] «lfht.clear_flag»), (.prim (some "_t11") .uload [.fieldAddr (.var "_t10") "next", .cst "CMM_CONSUME" (1)]), (.assign "next" (.var "_t11")), (.call (some "_t12") ["node"] [.var "next"] «lfht.is_removed»), (.ifte (.var "_t12") (block [(.assign "_goto_gc_node" (.lit 1)), (.brk)]) (.skip)), (.ifte (.var "_goto_gc_node") (.brk) (block [(.ifte (.var "unique_ret") (block [(.call (some "_t13") ["node"] [.var "next"] «lfht.is_bucket»), (.assign "_t14" (.un .lnot (.un .lnot (.un .lnot (.var "_t13")))))]) (.assign "_t14" (.lit 0))), (.ifte (.var "_t14") (block [(.call (some "_t15") ["node"] [.var "iter"] «lfht.clear_flag»), (.assign "_t16" (.un .lnot (.un .lnot (.bin .eq (.pload (.fieldAddr (.var "_t15") "reverse_hash")) (.pload (.fieldAddr (.var "node") "reverse_hash"))))))]) (.assign "_t16" (.lit 0))), (.ifte (.var "_t16") (block [(.pstore (.fieldAddr (.addrGlob "&d_iter") "node") (.var "node")), (.pstore (.fieldAddr (.addrGlob "&d_iter") "next") (.var "iter")), (.call none ["ht", "match", "key", "iter"] [.var "ht", .var "match", .var "key", .addrGlob "&d_iter"] «lfht.cds_lfht_next_duplicate»), (.ifte (.un .lnot (.pload (.fieldAddr (.addrGlob "&d_iter") "node"))) (block [(.assign "_goto_insert" (.lit 1)), (.brk)]) (.skip)), (.ifte (.var "_goto_insert") (.brk) (block [(.assign "_t17" (.pload (.fieldAddr (.addrGlob "&d_iter") "node"))), (.pstore (.fieldAddr (.var "unique_ret") "node") (.var "_t17")), (.assign "_t18" (.pload (.fieldAddr (.addrGlob "&d_iter") "next"))), (.pstore (.fieldAddr (.var "unique_ret") "next") (.var "_t18")), (.ret none)]))]) (.skip)), (.ifte (.var "_goto_insert") (.brk) (block [(.call (some "_t19") ["node"] [.var "iter"] «lfht.clear_flag»), (.ifte (.bin .ne (.pload (.fieldAddr (.var "iter_prev") "reverse_hash")) (.pload (.fieldAddr (.var "_t19") "reverse_hash"))) (block [(.call (some "_t20") ["node"] [.var "next"] «lfht.is_bucket»), (.assign "_t21" (.un .lnot (.un .lnot (.un .lnot (.var "_t20")))))]) (.assign "_t21" (.lit 0))), (.ifte (.var "_t21") (block [(.assign "chain_len" (.bin .add (.var "chain_len") (.lit 1))), (.prim none (.ext "check_resize") [.var "ht", .var "size", .var "chain_len"])]) (.skip)), (.call (some "_t22") ["node"] [.var "iter"] «lfht.clear_flag»), (.assign "iter_prev" (.var "_t22")), (.assign "iter" (.var "next"))]))]))]))]))]))])), (.assign "_goto_insert" (.lit 0)), (.ifte (.var "_goto_gc_node") (.skip) (block [(.call (some "_t23") ["node"] [.var "iter"] «lfht.clear_flag»), (.ifte (.bin .ne (.var "node") (.var "_t23")) (.skip) (.prim none (.ext "abort") [])), (.call (some "_t24") ["node"] [.var "iter_prev"] «lfht.is_removed»), (.ifte (.un .lnot (.var "_t24")) (.skip) (.prim none (.ext "abort") [])), (.call (some "_t25") ["node"] [.var "iter_prev"] «lfht.is_removal_owner»), (.ifte (.un .lnot (.var "_t25")) (.skip) (.prim none (.ext "abort") [])), (.call (some "_t26") ["node"] [.var "iter"] «lfht.is_removed»), (.ifte (.un .lnot (.var "_t26")) (.skip) (.prim none (.ext "abort") [])), (.call (some "_t27") ["node"] [.var "iter"] «lfht.is_removal_owner»), (.ifte (.un .lnot (.var "_t27")) (.skip) (.prim none (.ext "abort") [])), (.ifte (.un .lnot (.var "bucket_flag")) (block [(.call (some "_t28") ["node"] [.var "iter"] «lfht.clear_flag»), (.assign "_t29" (.var "_t28")), (.pstore (.fieldAddr (.var "node") "next") (.var "_t29"))]) (block [(.call (some "_t30") ["node"] [.var "iter"] «lfht.clear_flag»), (.call (some "_t31") ["node"] [.var "_t30"] «lfht.flag_bucket»), (.assign "_t32" (.var "_t31")), (.pstore (.fieldAddr (.var "node") "next") (.var "_t32"))])), (.call (some "_t33") ["node"] [.var "iter"] «lfht.is_bucket»), (.ifte (.var "_t33") (block [(.call (some "_t34") ["node"] [.var "node"] «lfht.flag_bucket»), (.assign "new_node" (.var "_t34"))]) (.assign "new_node" (.var "node"))), (.prim (some "_t35") .ucmpxchg [.fieldAddr (.var "iter_prev") "next", .var "iter", .var "new_node", .cst "CMM_SEQ_CST_FENCE" (6), .cst "CMM_RELAXED" (0)]), (.ifte (.bin .ne (.var "_t35") (.var "iter")) (.cont) (block [(.assign "return_node" (.var "node")), (.assign "_goto_end" (.lit 1)), (.brk)]))])), (.assign "_goto_gc_node" (.lit 0)), (.ifte (.var "_goto_end") (.brk) (block [(.call (some "_t36") ["node"] [.var "iter"] «lfht.is_removed»), (.ifte (.un .lnot (.var "_t36")) (.skip) (.prim none (.ext "abort") [])), (.call (some "_t37") ["node"] [.var "iter"] «lfht.is_removal_owner»), (.ifte (.un .lnot (.var "_t37")) (.skip) (.prim none (.ext "abort") [])), (.call (some "_t38") ["node"] [.var "iter"] «lfht.is_bucket»), (.ifte (.var "_t38") (block [(.call (some "_t39") ["node"] [.var "next"] «lfht.clear_flag»), (.call (some "_t40") ["node"] [.var "_t39"] «lfht.flag_bucket»), (.assign "new_next" (.var "_t40"))]) (block [(.call (some "_t41") ["node"] [.var "next"] «lfht.clear_flag»), (.assign "new_next" (.var "_t41"))])), (.prim none .ucmpxchg [.fieldAddr (.var "iter_prev") "next", .var "iter", .var "new_next", .cst "CMM_SEQ_CST_FENCE" (6), .cst "CMM_RELAXED" (0)])]))])), (.assign "_goto_end" (.lit 0)), (.ifte (.var "unique_ret") (block [(.assign "_t42" (.var "return_node")), (.pstore (.fieldAddr (.var "unique_ret") "node") (.var "_t42"))]) (.skip))]
 def «lfht._cds_lfht_add.params» : List String := ["ht", "hash", "match", "key", "size", "node", "unique_ret", "bucket_flag"]
 
 /-- `flag_removal_owner` (src/rculfhash.c) -/
@@ -726,7 +726,7 @@ def «lfht._cds_lfht_del.params» : List String := ["ht", "size", "node"]
 
 /-- `flag_removed_or_removal_owner` (src/rculfhash.c) -/
 def «lfht.flag_removed_or_removal_owner» : Stmt :=
-  .ret (some (.bin .bor (.bin .tagor (.var "node") (.cst "lfht.REMOVED_FLAG" (1))) (.cst "lfht.REMOVAL_OWNER_FLAG" (4))))
+  .ret (some (.bin .tagor (.bin .tagor (.var "node") (.cst "lfht.REMOVED_FLAG" (1))) (.cst "lfht.REMOVAL_OWNER_FLAG" (4))))
 def «lfht.flag_removed_or_removal_owner.params» : List String := ["node"]
 
 /-- `_cds_lfht_replace` (src/rculfhash.c) -/
@@ -736,17 +736,17 @@ def «lfht._cds_lfht_replace.params» : List String := ["ht", "size", "old_node"
 
 /-- `cds_lfht_lookup` (src/rculfhash.c) -/
 def «lfht.cds_lfht_lookup» : Stmt :=
-  block [(.prim none (.ext "cds_lfht_iter_debug_set_ht") [.var "ht", .var "iter"]), (.prim (some "_t1") (.ext "bit_reverse_ulong") [.var "hash"]), (.assign "reverse_hash" (.var "_t1")), (.prim (some "_t2") .uload [.fieldAddr (.var "ht") "size", .cst "CMM_ACQUIRE" (2)]), (.assign "size" (.var "_t2")), (.call (some "_t3") ["ht", "size", "hash"] [.var "ht", .var "size", .var "hash"] «lfht.lookup_bucket»), (.assign "bucket" (.var "_t3")), (.prim (some "_t4") .uload [.fieldAddr (.var "bucket") "next", .cst "CMM_CONSUME" (1)]), (.assign "node" (.var "_t4")), (.call (some "_t5") ["node"] [.var "node"] «lfht.clear_flag»), (.assign "node" (.var "_t5")), (.loop (block [(.call (some "_t6") ["node"] [.var "node"] «lfht.is_end»), (.ifte (.var "_t6") (block [(.assign "next" (.null)), (.assign "node" (.var "next")), (.brk)]) (.skip)), (.ifte (.bin .gt (.pload (.fieldAddr (.var "node") "reverse_hash")) (.var "reverse_hash")) (block [(.assign "next" (.null)), (.assign "node" (.var "next")), (.brk)]) (.skip)), (.prim (some "_t7") .uload [.fieldAddr (.var "node") "next", .cst "CMM_CONSUME" (1)]), (.assign "next" (.var "_t7")), (.call (some "_t8") ["node"] [.var "node"] «lfht.clear_flag»), (.ifte (.bin .eq (.var "node") (.var "_t8")) (.skip) (.prim none (.ext "abort") [])), (.call (some "_t9") ["node"] [.var "next"] «lfht.is_removed»), (.ifte (.un .lnot (.var "_t9")) (block [(.call (some "_t10") ["node"] [.var "next"] «lfht.is_bucket»), (.assign "_t11" (.un .lnot (.un .lnot (.un .lnot (.var "_t10")))))]) (.assign "_t11" (.lit 0))), (.ifte (.bin .land (.var "_t11") (.bin .eq (.pload (.fieldAddr (.var "node") "reverse_hash")) (.var "reverse_hash"))) (block [(.prim (some "_t12") (.ext "match") [.var "node", .var "key"]), (.assign "_t13" (.un .lnot (.un .lnot (.var "_t12"))))]) (.assign "_t13" (.lit 0))), (.ifte (.var "_t13") (.brk) (.skip)), (.call (some "_t14") ["node"] [.var "next"] «lfht.clear_flag»), (.assign "node" (.var "_t14"))])), (.ifte (.un .lnot (.var "node")) (.assign "_t17" (.lit 1)) (block [(.prim (some "_t15") .uload [.fieldAddr (.var "node") "next", .cst "CMM_RELAXED" (0)]), (.call (some "_t16") ["node"] [.var "_t15"] «lfht.is_bucket»), (.assign "_t17" (.un .lnot (.un .lnot (.un .lnot (.var "_t16")))))])), (.ifte (.var "_t17") (.skip) (.prim none (.ext "abort") [])), (.assign "_t18" (.var "node")), (.pstore (.fieldAddr (.var "iter") "node") (.var "_t18")), (.assign "_t19" (.var "next")), (.pstore (.fieldAddr (.var "iter") "next") (.var "_t19"))]
+  block [(.prim (some "_t1") (.ext "bit_reverse_ulong") [.var "hash"]), (.assign "reverse_hash" (.var "_t1")), (.prim (some "_t2") .uload [.fieldAddr (.var "ht") "size", .cst "CMM_ACQUIRE" (2)]), (.assign "size" (.var "_t2")), (.call (some "_t3") ["ht", "size", "hash"] [.var "ht", .var "size", .var "hash"] «lfht.lookup_bucket»), (.assign "bucket" (.var "_t3")), (.prim (some "_t4") .uload [.fieldAddr (.var "bucket") "next", .cst "CMM_CONSUME" (1)]), (.assign "node" (.var "_t4")), (.call (some "_t5") ["node"] [.var "node"] «lfht.clear_flag»), (.assign "node" (.var "_t5")), (.loop (block [(.call (some "_t6") ["node"] [.var "node"] «lfht.is_end»), (.ifte (.var "_t6") (block [(.assign "next" (.null)), (.assign "node" (.var "next")), (.brk)]) (.skip)), (.ifte (.bin .gt (.pload (.fieldAddr (.var "node") "reverse_hash")) (.var "reverse_hash")) (block [(.assign "next" (.null)), (.assign "node" (.var "next")), (.brk)]) (.skip)), (.prim (some "_t7") .uload [.fieldAddr (.var "node") "next", .cst "CMM_CONSUME" (1)]), (.assign "next" (.var "_t7")), (.call (some "_t8") ["node"] [.var "node"] «lfht.clear_flag»), (.ifte (.bin .eq (.var "node") (.var "_t8")) (.skip) (.prim none (.ext "abort") [])), (.call (some "_t9") ["node"] [.var "next"] «lfht.is_removed»), (.ifte (.un .lnot (.var "_t9")) (block [(.call (some "_t10") ["node"] [.var "next"] «lfht.is_bucket»), (.assign "_t11" (.un .lnot (.un .lnot (.un .lnot (.var "_t10")))))]) (.assign "_t11" (.lit 0))), (.ifte (.bin .land (.var "_t11") (.bin .eq (.pload (.fieldAddr (.var "node") "reverse_hash")) (.var "reverse_hash"))) (block [(.prim (some "_t12") (.ext "match") [.var "node", .var "key"]), (.assign "_t13" (.un .lnot (.un .lnot (.var "_t12"))))]) (.assign "_t13" (.lit 0))), (.ifte (.var "_t13") (.brk) (.skip)), (.call (some "_t14") ["node"] [.var "next"] «lfht.clear_flag»), (.assign "node" (.var "_t14"))])), (.ifte (.un .lnot (.var "node")) (.assign "_t17" (.lit 1)) (block [(.prim (some "_t15") .uload [.fieldAddr (.var "node") "next", .cst "CMM_RELAXED" (0)]), (.call (some "_t16") ["node"] [.var "_t15"] «lfht.is_bucket»), (.assign "_t17" (.un .lnot (.un .lnot (.un .lnot (.var "_t16")))))])), (.ifte (.var "_t17") (.skip) (.prim none (.ext "abort") [])), (.assign "_t18" (.var "node")), (.pstore (.fieldAddr (.var "iter") "node") (.var "_t18")), (.assign "_t19" (.var "next")), (.pstore (.fieldAddr (.var "iter") "next") (.var "_t19"))]
 def «lfht.cds_lfht_lookup.params» : List String := ["ht", "hash", "match", "key", "iter"]
 
 /-- `cds_lfht_next` (src/rculfhash.c) -/
 def «lfht.cds_lfht_next» : Stmt :=
-  block [(.prim none (.ext "cds_lfht_iter_debug_assert") [.bin .eq (.var "ht") (.pload (.fieldAddr (.var "iter") "lfht"))]), (.call (some "_t1") ["node"] [.pload (.fieldAddr (.var "iter") "next")] «lfht.clear_flag»), (.assign "node" (.var "_t1")), (.loop (block [(.call (some "_t2") ["node"] [.var "node"] «lfht.is_end»), (.ifte (.var "_t2") (block [(.assign "next" (.null)), (.assign "node" (.var "next")), (.brk)]) (.skip)), (.prim (some "_t3") .uload [.fieldAddr (.var "node") "next", .cst "CMM_CONSUME" (1)]), (.assign "next" (.var "_t3")), (.call (some "_t4") ["node"] [.var "next"] «lfht.is_removed»), (.ifte (.un .lnot (.var "_t4")) (block [(.call (some "_t5") ["node"] [.var "next"] «lfht.is_bucket»), (.assign "_t6" (.un .lnot (.un .lnot (.un .lnot (.var "_t5")))))]) (.assign "_t6" (.lit 0))), (.ifte (.var "_t6") (.brk) (.skip)), (.call (some "_t7") ["node"] [.var "next"] «lfht.clear_flag»), (.assign "node" (.var "_t7"))])), (.ifte (.un .lnot (.var "node")) (.assign "_t10" (.lit 1)) (block [(.prim (some "_t8") .uload [.fieldAddr (.var "node") "next", .cst "CMM_RELAXED" (0)]), (.call (some "_t9") ["node"] [.var "_t8"] «lfht.is_bucket»), (.assign "_t10" (.un .lnot (.un .lnot (.un .lnot (.var "_t9")))))])), (.ifte (.var "_t10") (.skip) (.prim none (.ext "abort") [])), (.assign "_t11" (.var "node")), (.pstore (.fieldAddr (.var "iter") "node") (.var "_t11")), (.assign "_t12" (.var "next")), (.pstore (.fieldAddr (.var "iter") "next") (.var "_t12"))]
+  block [(.call (some "_t1") ["node"] [.pload (.fieldAddr (.var "iter") "next")] «lfht.clear_flag»), (.assign "node" (.var "_t1")), (.loop (block [(.call (some "_t2") ["node"] [.var "node"] «lfht.is_end»), (.ifte (.var "_t2") (block [(.assign "next" (.null)), (.assign "node" (.var "next")), (.brk)]) (.skip)), (.prim (some "_t3") .uload [.fieldAddr (.var "node") "next", .cst "CMM_CONSUME" (1)]), (.assign "next" (.var "_t3")), (.call (some "_t4") ["node"] [.var "next"] «lfht.is_removed»), (.ifte (.un .lnot (.var "_t4")) (block [(.call (some "_t5") ["node"] [.var "next"] «lfht.is_bucket»), (.assign "_t6" (.un .lnot (.un .lnot (.un .lnot (.var "_t5")))))]) (.assign "_t6" (.lit 0))), (.ifte (.var "_t6") (.brk) (.skip)), (.call (some "_t7") ["node"] [.var "next"] «lfht.clear_flag»), (.assign "node" (.var "_t7"))])), (.ifte (.un .lnot (.var "node")) (.assign "_t10" (.lit 1)) (block [(.prim (some "_t8") .uload [.fieldAddr (.var "node") "next", .cst "CMM_RELAXED" (0)]), (.call (some "_t9") ["node"] [.var "_t8"] «lfht.is_bucket»), (.assign "_t10" (.un .lnot (.un .lnot (.un .lnot (.var "_t9")))))])), (.ifte (.var "_t10") (.skip) (.prim none (.ext "abort") [])), (.assign "_t11" (.var "node")), (.pstore (.fieldAddr (.var "iter") "node") (.var "_t11")), (.assign "_t12" (.var "next")), (.pstore (.fieldAddr (.var "iter") "next") (.var "_t12"))]
 def «lfht.cds_lfht_next.params» : List String := ["ht", "iter"]
 
 /-- `cds_lfht_first` (src/rculfhash.c) -/
 def «lfht.cds_lfht_first» : Stmt :=
-  block [(.prim none (.ext "cds_lfht_iter_debug_set_ht") [.var "ht", .var "iter"]), (.call (some "_t1") ["ht", "index"] [.var "ht", .lit 0] «lfht.bucket_at»), (.prim (some "_t2") .uload [.fieldAddr (.var "_t1") "next", .cst "CMM_CONSUME" (1)]), (.assign "_t3" (.var "_t2")), (.pstore (.fieldAddr (.var "iter") "next") (.var "_t3")), (.call none ["ht", "iter"] [.var "ht", .var "iter"] «lfht.cds_lfht_next»)]
+  block [(.call (some "_t1") ["ht", "index"] [.var "ht", .lit 0] «lfht.bucket_at»), (.prim (some "_t2") .uload [.fieldAddr (.var "_t1") "next", .cst "CMM_CONSUME" (1)]), (.assign "_t3" (.var "_t2")), (.pstore (.fieldAddr (.var "iter") "next") (.var "_t3")), (.call none ["ht", "iter"] [.var "ht", .var "iter"] «lfht.cds_lfht_next»)]
 def «lfht.cds_lfht_first.params» : List String := ["ht", "iter"]
 
 /-- `cds_lfht_add` (src/rculfhash.c) -/
